@@ -55,6 +55,26 @@ def specs(tier):
                 if kind in ("method", "pget", "static") and shape in ("chain2", "two_bases", "chain3") and sum(1 for c in combo if c and any(c)) >= 2:
                     # the same hierarchy with a foreign functools.wraps decorator on top of the contracts of every member
                     out.append(dict(out[-1], foreign_top=True))
+    # an abstract method without contracts in one base: it provides the member with no precondition at all
+    for shape, abstract in (("two_bases", "A"), ("two_bases", "B"), ("two_bases_rev", "A"), ("two_bases_rev", "B"), ("chain2", "A"), ("y_shape", "A"), ("y_shape", "B")):
+        classes = SHAPES[shape]
+        others = [(1, 0), (1, 1), (0, 1)]
+        for other in others:
+            for leaf in [(0, 0), (1, 0), (1, 1), (0, 1)]:
+                members = []
+                for cls, bases in classes:
+                    if cls == abstract:
+                        members.append((0, 0))
+                    elif not bases:
+                        members.append(other)
+                    elif cls == classes[-1][0]:
+                        members.append(leaf)
+                    else:
+                        members.append(None)
+                if shape == "chain2":
+                    members = [(0, 0), leaf]
+                out.append({"shape": shape, "kind": "method", "name": "m", "members": members, "invs": [0] * len(classes), "inits": [None] * len(classes),
+                            "abstract": [abstract]})
     # invariants with mixed check_on (ALL + CALL) on the classes of chains and two-base hierarchies
     for shape in ("chain2", "chain3", "two_bases"):
         classes = SHAPES[shape]
@@ -92,6 +112,7 @@ def specs(tier):
 # ---------------------------------------------------------------------------------------------
 
 PRELUDE = '''\
+import abc
 import functools
 import icontract
 LOG = []
@@ -152,6 +173,9 @@ def render(spec):
                     ["@icontract.ensure({0}, error=E_{0})".format(n) for n in reversed(posts)]
             if spec.get("foreign_top"):
                 decos = ["@fw"] + decos
+            if cls in spec.get("abstract", ()):
+                # an abstract method (nearest the function) - it provides the member without any precondition like any other one
+                decos = decos + ["@abc.abstractmethod"]
             logb = "    LOG.append(('body', '{}'))".format(cls)
             if kind == "method":
                 body += decos + ["def {}(self, x=None):".format(name), logb, "    return 1"]
@@ -322,6 +346,8 @@ def check_spec(spec, acc):
             eff = ref.eff(cls)
             if eff is None and spec["name"] == "m":
                 continue
+            if ref.selected(cls) in spec.get("abstract", ()):
+                continue  # the member Python selects for this class is abstract: the class can not be instantiated
             ipres, iposts, ik = ref.init_contracts(cls)
             invs = ref.invariants(cls)
             K = ns[cls]
